@@ -32,10 +32,13 @@ def run(tier, work):
     stats = dict(states=0, transitions=0, runs=0)
     graphs = rng.sample(K.emit(work, stats), 120 if tier == "quick" else 2500)
     jobs, meta = [], []
+    from . import c16
+    places = c16.choose_places(work, stats, graphs, rng)
     for gi, gr in enumerate(graphs):
-        for style in ("normal", "endless", "multiline"):
-            dl, info = K.render(gr, K.PLAIN, style=style)
-            ql, exp = K.query_lines(gr, K.PLAIN)
+        for style in ("normal", "endless", "multiline", "endless2", "placed"):
+            pl = places[gi] if style == "placed" else None
+            dl, info = K.render(gr, K.PLAIN, style="normal" if style == "placed" else style, place=pl)
+            ql, exp = K.query_lines(gr, K.PLAIN, place=pl)
             text = "\n".join(dl + ql) + "\n"
             defs = expectations(gr, info["def_rows"])
             jobs.append({"files": {"t.rb": text}, "args": ["t.rb", "-i"]})
@@ -81,8 +84,8 @@ def run(tier, work):
             v.fail(key, "%s (%s style): %s" % (" ".join(job["args"][1:]), style, what), C.job_files_for_replay(job), detail={"out": (rr.get("out") or "")[:3000]})
     v.sample({"program": K.render(graphs[0], K.PLAIN, style="multiline")[0][:14]})
     cov = {"states": stats["states"], "transitions": stats["transitions"], "traces_validated_against_impl": stats["runs"],
-           "graphs": len(graphs), "styles": 3,
-           "rule": "TLC-generated class graphs x 3 definition styles; -i hints, --define records (instance and class query rows), "
+           "graphs": len(graphs), "styles": 5,
+           "rule": "TLC-generated class graphs x 4 definition styles + one rendering with every class / module in a namespace of its own; -i hints, --define records (instance and class query rows), "
                    "--hover on rows whose call the model resolves"}
     return v.finish("model_checking", cov, assumptions=["the row of a definition is the row of its `def` keyword"])
 
